@@ -19,6 +19,9 @@ EXPLANATION = (
     "T-lookup: the nested loop of stoInit that fills fixedSizeFor/fixedSizeIndexFor assigns the class size fixedSize[i] and the "
     "class index i for every j from the previous class size + 1 (0 for the first) up to and including fixedSize[i], so that "
     "with the monotone table every request size <= FixedSizeMax maps to the smallest class that holds it. "
+    "T-section: the byte count pieceGetMixed computes for a new mixed section of nq quanta (header term C, per-quantum term D, "
+    "both constant-evaluated) dominates the capacity formula of sectQmCount ((pages*PgSize - H)/(q + B)): C >= H and D >= quantum + B, "
+    "so the section prepared from QUO_ROUND_UP(nb, PgSize) pages holds at least nq quanta. "
     "Behaviour over allocation histories is not decided.")
 
 
@@ -171,11 +174,79 @@ def check_lookup_init(rep, config):
        "sizes are never entered in the lookup arrays")
 
 
+def _linear(n, var):
+    """n as (a, b) meaning a*var + b with constant a, b; None if not of that shape."""
+    s_ = common.strip(n)
+    if s_ is None:
+        return None
+    cv = common.const_value(s_)
+    if cv is not None:
+        return (0, cv)
+    if s_["k"] == "DeclRefExpr" and s_["n"] == var:
+        return (1, 0)
+    if s_["k"] == "BinaryOperator" and s_["op"] in ("+", "-", "*"):
+        a, b = _linear(s_["c"][0], var), _linear(s_["c"][1], var)
+        if a is None or b is None:
+            return None
+        if s_["op"] == "+":
+            return (a[0] + b[0], a[1] + b[1])
+        if s_["op"] == "-":
+            return (a[0] - b[0], a[1] - b[1])
+        if a[0] == 0:
+            return (a[1] * b[0], a[1] * b[1])
+        if b[0] == 0:
+            return (a[0] * b[1], a[1] * b[1])
+    return None
+
+
+def check_section_sizing(rep, config):
+    """A new mixed section is asked for enough pages: the byte count computed by pieceGetMixed for nq quanta dominates
+    the capacity formula of sectQmCount (pages*PgSize - header)/(quantum + per-quantum info)."""
+    f = common.extract("store.c", config, trees=["sectQmCount", "pieceGetMixed", "sectPrepare"])
+    where = "store.c (pieceGetMixed / sectQmCount)[%s]" % config
+    # capacity: return (pageCount * PgSize - H) / (qmSize + B)
+    fq = f.func("sectQmCount")
+    pn = [p["n"] for p in fq["params"]]
+    ret = [x for x in common.walk(fq["body"]) if x["k"] == "ReturnStmt"]
+    e = common.strip(ret[0]["c"][0]) if len(ret) == 1 else None
+    if e is None or e["k"] != "BinaryOperator" or e["op"] != "/" or len(pn) != 2:
+        raise AnalysisBroken("sectQmCount is no longer `return (pages*PgSize - header)/(qmSize + info)`")
+    num, den = _linear(e["c"][0], pn[0]), _linear(e["c"][1], pn[1])
+    if num is None or den is None or den[0] != 1 or num[0] <= 0:
+        raise AnalysisBroken("sectQmCount: numerator/denominator not linear in (pageCount, qmSize)")
+    pgsize, H, B = num[0], -num[1], den[1]
+    # request: nb = C + nq*(D); npages = QUO_ROUND_UP(nb, PgSize); sectPrepare(pages, npages, Q, false)
+    fp = f.func("pieceGetMixed")
+    nb = None
+    for x in common.walk(fp["body"]):
+        if x["k"] == "BinaryOperator" and x["op"] == "=" and common.strip(x["c"][0]) is not None and common.strip(x["c"][0]).get("n") == "nb":
+            nb = _linear(x["c"][1], "nq")
+    Q = None
+    for c in common.calls(fp["body"], "sectPrepare"):
+        Q = common.const_value(c["c"][3])
+    if nb is None or Q is None:
+        raise AnalysisBroken("pieceGetMixed: `nb = header + nq*(info + quantum)` / sectPrepare(pages, npages, quantum, ...) not recognised")
+    D, C = nb
+    sample = {"capacity": "(pages*%d - %d)/(q + %d)" % (pgsize, H, B), "request": "%d + nq*%d" % (C, D), "quantum": Q}
+    if C >= H:
+        rep.ok("T-section", "%s:header-term" % config, sample=sample)
+    else:
+        rep.violation("T-section", "%s:header-term" % config, where,
+                      "pieceGetMixed allows %d bytes for the section header, sectQmCount subtracts %d: for some request sizes the new "
+                      "section holds one quantum fewer than requested and stoAlloc returns a block smaller than asked for" % (C, H))
+    if D >= Q + B:
+        rep.ok("T-section", "%s:per-quantum-term" % config)
+    else:
+        rep.violation("T-section", "%s:per-quantum-term" % config, where,
+                      "pieceGetMixed allows %d bytes per quantum, a quantum costs %d + %d" % (D, Q, B))
+
+
 def run(tier):
     rep = common.Report("C10", tier, EXPLANATION)
     for config in ("compiler", "runtime"):
         check_config(rep, config)
         check_lookup_init(rep, config)
+        check_section_sizing(rep, config)
     rep.floor("C10 table obligations", rep.obligations, 60)
     rep.assumptions.append("allocation, free, resize and collection histories are not analysed")
     return rep
